@@ -19,6 +19,11 @@ EXTRA = [
     N.mkgrid('3.0.0', [], [('a', [])], [(('list', (N.num(1.0), N.NA)),), (N.mkdict([('k', N.MARKER)]),)]),
     N.mkgrid('4.0', [('m', N.MARKER)], [('a', [])], [(('xstr', 'Foo', 'bar'),), (c03._dt('Kathmandu', 2020, 6, 1, 12, 0, 0),)]),
 ]
+EXTRA.append(N.mkgrid('2.0', [], [('w', []), ('s', [])],
+                      [(c03._fx(-480, 2020, 1, 15, 12, 0, 0), c03._fx(-480, 2020, 7, 15, 12, 0, 0)),
+                       (c03._fx(570, 2020, 1, 15, 12, 0, 0), c03._fx(570, 2020, 7, 15, 12, 0, 0)),
+                       (c03._fx(-600, 2020, 7, 15, 12, 0, 0), c03._fx(-600, 2020, 1, 15, 12, 0, 0)),
+                       (c03._fx(630, 2020, 1, 15, 12, 0, 0), c03._fx(630, 2020, 7, 15, 12, 0, 0))]))
 ZBASE = list(c03.BASE) + EXTRA
 JBASE = list(c05.BASE) + EXTRA
 
